@@ -114,6 +114,11 @@ def spec_strategy(draw):
             c = draw(strategies.quic_conn(max_steps=4, ep=st.just(ep), early=False))
         c["seed"] = c["seed"] * 8 + i
         conns.append(c)
+    if n >= 2 and draw(st.integers(0, 2)) == 0:
+        # several connections to the SAME server port (other clients), as every busy server has
+        conns[1]["ep"] = dict(conns[1]["ep"], sport=conns[0]["ep"]["sport"])
+        if n >= 3 and draw(st.booleans()):
+            conns[2]["ep"] = dict(conns[2]["ep"], sport=conns[0]["ep"]["sport"])
     p = draw(st.lists(st.sampled_from(PORT_POOL), max_size=4))
     opts = {"p": p, "p_repeat": draw(st.booleans()) if p else False}
     share = n >= 2 and draw(st.integers(0, 3)) == 0
